@@ -40,6 +40,7 @@ type VerifTask struct {
 	ExpectedDuration   time.Duration
 	QueuedTimestamp    time.Time
 	InstanceNameSuffix string
+	DoNotCache         bool // Only meaningful while the task is not completed.
 }
 
 // VerifWorker describes a single worker.
@@ -429,6 +430,7 @@ func (bq *InMemoryBuildQueue) VerifDumpState() *VerifState {
 				ExpectedDuration:   t.expectedDuration,
 				QueuedTimestamp:    t.desiredState.QueuedTimestamp.AsTime(),
 				InstanceNameSuffix: t.desiredState.InstanceNameSuffix,
+				DoNotCache:         t.desiredState.Action.GetDoNotCache(),
 			}
 			if t.executeResponse != nil {
 				vt.ResponseCode = t.executeResponse.GetStatus().GetCode()
